@@ -18,6 +18,8 @@ def run(rep):
     rep.guard(m5, rep, w)
     rep.guard(m6, rep, w)
     rep.guard(m7, rep, w)
+    import c15
+    rep.guard(c15.n8, rep, w, 'C14')   # a count of module bodies in progress must come down when a body is left by an exception
     import cache
     rep.guard(cache.cc1, rep, w, 'C14')     # a remembered global / attribute look-up must not outlive a write to the table it came from
     rep.guard(c08.x9, rep, w)     # the active module is re-read from the frame whenever the frame list changes (unwinding out of another module)
@@ -290,9 +292,42 @@ def m3(rep, w):
             'start_import_impl reports an import failure as %s' % sorted(set(fail_kinds)), f.loc())
     the = [bi for bi, t in f.calls() if callee_name(t) == VM + 'try_handle_error']
     r.check(len(the) >= 3, 'three failure edges (cycle, loader, compile) go through try_handle_error', 'only %d try_handle_error sites' % len(the), f.loc())
-    d = w.require_fn('yarel::vm::default_read_module_source', 'C14')
-    kinds = [s['r']['v'] for b in d.blocks for s in b['s'] if s.get('r', {}).get('rv') == 'agg' and s['r'].get('adt') == 'yarel::error::ErrorKind']
-    r.check('ImportError' in kinds, 'default loader reports unreadable files as ImportError', 'default loader error kinds: %s' % kinds, d.loc())
+    # every module loader (the default one and any a host installs: functions used as a value of the loader's pointer type): the errors
+    # it builds, itself or in the helpers it calls, are ImportErrors - start_import_impl passes a loader's error on unchanged
+    loaders = set()
+    for k_, v_ in w.reified().items():
+        if k_.replace(' ', '').startswith('fn(&str)->std::result::Result<std::string::String,') and 'Error' in k_:
+            loaders |= set(v_)
+    if 'yarel::vm::default_read_module_source' not in loaders:
+        raise Broken('C14', 'anchor', 'the default module loader is not among the functions used as loaders (%s)' % sorted(loaders))
+    cg = w.callgraph()
+    for lp in sorted(loaders):
+        d = w.fns.get(lp)
+        if d is None:
+            continue
+        body = {lp} | {x for x in cg.get(lp, ()) if x in w.fns and w.fns[x].crate is d.crate} | {g.path for g in w.fns.values() if g.kind == 'Closure' and g.parent == lp}
+        body |= {g.path for g in w.fns.values() if g.kind == 'Closure' and g.parent in body}
+        # the errors built for a file that cannot be read: in code that runs after a std::fs / std::io call of the same function, or in a
+        # closure made there (map_err)
+        kinds = []
+        for x in sorted(body):
+            g = w.fns[x]
+            dom = g.dominators()
+            io_calls = [bi for bi, t in g.calls() if strip_generics(callee_name(t) or '').startswith(('std::fs::', 'std::io::'))]
+            par = w.fns.get(g.parent) if g.kind == 'Closure' and g.parent else None
+            made_after_io = False
+            if par is not None:
+                pio = [bi for bi, t in par.calls() if strip_generics(callee_name(t) or '').startswith(('std::fs::', 'std::io::'))]
+                made = [bi for bi in par.normal_blocks() for s_ in par.blocks[bi]['s'] if (s_.get('r') or {}).get('closure') == g.path]
+                pdom = par.dominators()
+                made_after_io = any(any(i_ in pdom.get(m_, ()) or i_ == m_ for i_ in pio) for m_ in made)
+            for bi, b in enumerate(g.blocks):
+                for s_ in b['s']:
+                    if s_.get('r', {}).get('rv') == 'agg' and (s_['r'].get('adt') or '').endswith('error::ErrorKind'):
+                        if made_after_io or any(i_ in dom.get(bi, ()) for i_ in io_calls):
+                            kinds.append(s_['r']['v'])
+        r.check(bool(kinds) and set(kinds) == {'ImportError'}, 'loader %s reports its failures as ImportError' % lp.rsplit('::', 1)[-1],
+                'module loader %s builds errors of kind %s: an import that fails there is not the ImportError a handler filtering on the class expects' % (lp, sorted(set(kinds))), d.loc())
 
 
 def m5(rep, w):
